@@ -240,6 +240,7 @@ func parseNumber[D []byte | string](d D, neg, sepallowed bool) (Decimal, error) 
 	caneof := false
 	cansep := false
 	cansgn := false
+	aftersep := false
 	eneg := false
 	sawdig := false
 	sawdot := false
@@ -253,6 +254,7 @@ func parseNumber[D []byte | string](d D, neg, sepallowed bool) (Decimal, error) 
 			caneof = true
 			cansep = true
 			cansgn = false
+			aftersep = false
 			sawdig = true
 
 			sig64 = sig64*10 + uint64(c-'0')
@@ -261,7 +263,7 @@ func parseNumber[D []byte | string](d D, neg, sepallowed bool) (Decimal, error) 
 				nfrac++
 			}
 		case c == '.':
-			if sawdot {
+			if sawdot || aftersep {
 				return Decimal{}, parseNumberSyntaxError{}
 			}
 
@@ -270,7 +272,7 @@ func parseNumber[D []byte | string](d D, neg, sepallowed bool) (Decimal, error) 
 			cansgn = false
 			sawdot = true
 		case c == 'E' || c == 'e':
-			if !sawdig {
+			if !sawdig || aftersep {
 				return Decimal{}, parseNumberSyntaxError{}
 			}
 
@@ -286,6 +288,7 @@ func parseNumber[D []byte | string](d D, neg, sepallowed bool) (Decimal, error) 
 			caneof = false
 			cansep = false
 			cansgn = false
+			aftersep = true
 		default:
 			return Decimal{}, parseNumberSyntaxError{}
 		}
@@ -301,6 +304,7 @@ func parseNumber[D []byte | string](d D, neg, sepallowed bool) (Decimal, error) 
 			caneof = true
 			cansep = true
 			cansgn = false
+			aftersep = false
 			sawdig = true
 
 			if sawexp {
@@ -346,7 +350,7 @@ func parseNumber[D []byte | string](d D, neg, sepallowed bool) (Decimal, error) 
 				}
 			}
 		case c == '.':
-			if sawdot || sawexp {
+			if sawdot || sawexp || aftersep {
 				return Decimal{}, parseNumberSyntaxError{}
 			}
 
@@ -355,7 +359,7 @@ func parseNumber[D []byte | string](d D, neg, sepallowed bool) (Decimal, error) 
 			cansgn = false
 			sawdot = true
 		case c == 'E' || c == 'e':
-			if !sawdig || sawexp {
+			if !sawdig || sawexp || aftersep {
 				return Decimal{}, parseNumberSyntaxError{}
 			}
 
@@ -380,6 +384,7 @@ func parseNumber[D []byte | string](d D, neg, sepallowed bool) (Decimal, error) 
 			caneof = false
 			cansep = false
 			cansgn = false
+			aftersep = true
 		case c == '+':
 			if !cansgn {
 				return Decimal{}, parseNumberSyntaxError{}
